@@ -15,13 +15,16 @@ VarCases == UNION {{[kind |-> k, depth |-> d, inject |-> SetToSeq(i), caller |->
 \* the pipeline file loaded by NAME through the pipeline resolver (which takes no opt-in argument: the environment decides)
 ResolverCases == UNION {{[kind |-> k, depth |-> d, inject |-> SetToSeq(i), caller |-> FALSE, env |-> e, pathclass |-> pc, dirs |-> "resolver"] :
                k \in {"ptemplate", "ftemplate"}, i \in {{}, {"item"}}, e \in {"unset", "1", "yes"}, pc \in PathClasses} : d \in 0..1}
+\* the caller opts in (argument or environment) and gives a collection of allowed directories WITHOUT entries
+EmptyCases == UNION {{[kind |-> k, depth |-> d, inject |-> SetToSeq(i), caller |-> c, env |-> e, pathclass |-> pc, dirs |-> "empty"] :
+               k \in {"ptemplate", "ftemplate"}, i \in {{}, {"item"}}, c \in BOOLEAN, e \in {"unset", "1"}, pc \in {"inside", "outside"}} : d \in 0..2}
 \* capabilities reached for from inside the template text (no opt-in key is written anywhere)
 JCases == {[kind |-> k, depth |-> 0, inject |-> <<>>, caller |-> c, env |-> e, pathclass |-> "outside", dirs |-> dm] :
                k \in {"jcmd", "jvars", "jfile"}, c \in BOOLEAN, e \in {"unset", "1"}, dm \in {"none", "source"}}
 \* a Python-object tag in the pipeline text, at four places of the document (depth = place), whatever the caller and the environment grant
 YCases == {[kind |-> "ytag", depth |-> d, inject |-> <<>>, caller |-> c, env |-> e, pathclass |-> "outside", dirs |-> "none"] :
                d \in 0..3, c \in BOOLEAN, e \in {"unset", "1"}}
-ASSUME LET S == SetToSeq(ResolverCases \cup ExtCases \cup VarCases \cup JCases \cup YCases) IN ndJsonSerialize(IOEnv.VERIF_OUT, [i \in 1..Len(S) |-> [id |-> i] @@ S[i]])
+ASSUME LET S == SetToSeq(EmptyCases \cup ResolverCases \cup ExtCases \cup VarCases \cup JCases \cup YCases) IN ndJsonSerialize(IOEnv.VERIF_OUT, [i \in 1..Len(S) |-> [id |-> i] @@ S[i]])
 Init == x = 0
 Next == UNCHANGED x
 =============================================================================
